@@ -1150,7 +1150,7 @@ func (nd *KVNode) readIndexLoop() {
 		)
 		for !timeout && !done {
 			select {
-			case rs := <-nd.rn.readStateC:
+			case rs = <-nd.rn.readStateC:
 				done = bytes.Equal(rs.RequestCtx, req)
 				if !done {
 					// a previous request might time out. now we should ignore the response of it and
